@@ -296,6 +296,7 @@ func (c *workceptorCommand) ControlFunc(ctx context.Context, nc controlsvc.Netce
 		if err != nil {
 			return nil, err
 		}
+		verifCrashPoint("submit.stdin-created")
 		worker.UpdateBasicStatus(WorkStatePending, "Waiting for Input Data", 0)
 		err = cfo.ReadFromConn(fmt.Sprintf("Work unit created with ID %s. Send stdin data and EOF.\n", worker.ID()), stdin, &controlsvc.SocketConnIO{})
 		if err != nil {
@@ -311,6 +312,7 @@ func (c *workceptorCommand) ControlFunc(ctx context.Context, nc controlsvc.Netce
 		}
 		worker.UpdateBasicStatus(WorkStatePending, "Starting Worker", 0)
 		err = worker.Start()
+		verifCrashPoint("submit.started")
 		if err != nil && !IsPending(err) {
 			worker.UpdateBasicStatus(WorkStateFailed, fmt.Sprintf("Error starting worker: %s", err), 0)
 
